@@ -18,7 +18,7 @@ RULE = ("cases: PD operators (every PD class at the root, nestings to depth 2-3,
         "log-determinant equals log|P| + (n/m) sum_i u_i^T log(P^-1/2 A P^-1/2) u_i evaluated densely for the probe vectors "
         "recorded from the cg.begin hook event (P from the operator's own preconditioner, identity without one) whenever both "
         "budgets reach n (n <= 12; quick sizes include 10-12 so that CG runs past its 10-iteration minimum); inv_quad is judged with the CG tolerance bound. distinct key = (root class, query, path, rhs kind, "
-        "reduce, settings key, dtype) [round 4: a factorization (cholesky / root / inverse root / diagonalization) may be requested on the same object before the query: cached triangular roots steer inv_quad_logdet]")
+        "reduce, settings key, dtype) [round 4: a factorization (cholesky / root / inverse root / diagonalization) may be requested on the same object before the query: cached triangular roots steer inv_quad_logdet] [round 5: the stochastic quadrature identity is judged only when P^-1/2 A P^-1/2 has condition number <= 1e3 as well]")
 ASSUMPTIONS = ["float64 eigendecomposition of the dense matrix is the reference for log / inverse", "probe vectors = first n_tridiag "
                "columns of the normalised right-hand side in the cg.begin hook event", "preconditioner matrix P = dense value of the "
                "operator returned by op._preconditioner() (its exactness is C10)"]
